@@ -229,18 +229,25 @@ def main():
         return
     os.makedirs(OUT, exist_ok=True)
     path = os.path.join(OUT, f'{pid}.jsonl')
+    # a mutant already judged is recognised by (file, function, operator, description, k-th such) - not by its id,
+    # which changes with every unrelated edit of the file
+    def keys(recs):
+        seen = {}
+        out = []
+        for r in sorted(recs, key=lambda r: (r['file'], r['line'])):
+            k = (r['file'], r['func'], r['op'], r['what'])
+            seen[k] = seen.get(k, 0) + 1
+            out.append((k + (seen[k],), r))
+        return out
     done = {}
     if os.path.exists(path):
-        for l in open(path):
-            r = json.loads(l)
-            done[r['id']] = r
+        done = dict(keys([json.loads(l) for l in open(path)]))
     head = subprocess.run(['git', '-C', REPO, 'rev-parse', '--short', 'HEAD'], capture_output=True, text=True).stdout.strip()
-    todo = [m for m in ms if m['id'] not in done]
+    todo = [m for k, m in keys(ms) if k not in done]
     checks = [c.upper() for c in a.checks.split(',') if c] or [pid]
     with cf.ThreadPoolExecutor(a.jobs) as ex:
         for rec in ex.map(lambda m: run_one(pid, m, a.suite_jobs, checks), todo):
             rec['repo'] = head
-            done[rec['id']] = rec
             print(pid, rec['file'].split('/')[-1], rec['line'], rec['op'], rec['result'], flush=True)
             with open(path, 'a') as f:
                 f.write(json.dumps(rec, sort_keys=True) + '\n')
